@@ -56,8 +56,11 @@ def pascal_to_snake(pascal_str: str) -> str:
         The snake_case string.
 
     """
-    return "".join(["_" + c.lower() if c.isupper() else c for c in pascal_str]).lstrip(
-        "_"
+    return "".join(
+        [
+            ("_" if i > 0 else "") + c.lower() if c.isupper() else c
+            for i, c in enumerate(pascal_str)
+        ]
     )
 
 
